@@ -22,6 +22,7 @@ import (
 	"time"
 
 	"github.com/zerx-lab/wordZero/pkg/document"
+	"github.com/zerx-lab/wordZero/pkg/style"
 
 	"verif/harness/internal/foreign"
 	"verif/harness/internal/pkgmodel"
@@ -121,6 +122,8 @@ type c05Args struct {
 	Docs  []int  `json:"docs"`
 	Sizes []int  `json:"sizes"` // per listed doc: upper end of k
 	Root  string `json:"root"`
+	// depth of the agreement histories (part 3)
+	AgreeDepth int `json:"agree_depth"`
 }
 
 func c05SetLimit(k uint64) error {
@@ -223,8 +226,183 @@ func init() {
 				c05Path(c, idx-1, doc, pk, dir)
 			}
 		}
+		// ---- part 3: Save and ToBytes agree in every state of a history, not only on fresh documents
+		c05Agreement(func(desc map[string]interface{}, run func(idx int64)) {
+			my := c.Begin(idx, func() interface{} { return desc })
+			idx++
+			if my {
+				run(idx - 1)
+			}
+		}, c, dir, a.AgreeDepth)
 	})
 	register("C05", "model_checking", runC05)
+}
+
+// ---------------------------------------------------------------------------
+// part 3: agreement histories.  base document x first serialisation (none / ToBytes / Save) x every
+// sequence of <= depth mutations, with a serialisation after each but the last x which of the two
+// final serialisations comes first.  No fault is injected: Save must return nil and the file must
+// equal the ToBytes serialisation of that moment.
+
+type c05Mut struct {
+	name  string
+	apply func(d *document.Document)
+}
+
+var c05Muts = []c05Mut{
+	{"AddParagraph", func(d *document.Document) { d.AddParagraph("more") }},
+	{"AddStyle", func(d *document.Document) {
+		d.GetStyleManager().AddStyle(&style.Style{Type: string(style.StyleTypeParagraph), StyleID: "AgreeX", CustomStyle: true,
+			Name: &style.StyleName{Val: "Agree X"}, RunPr: &style.RunProperties{Bold: &style.Bold{}}})
+	}},
+	{"RemoveStyle(Quote)", func(d *document.Document) { d.GetStyleManager().RemoveStyle("Quote") }},
+	{"AddImage(png)", func(d *document.Document) {
+		d.AddImageFromData(noisePNG(6, 9), "agree.png", document.ImageFormatPNG, 6, 6, nil)
+	}},
+	{"AddImage(jpeg)", func(d *document.Document) {
+		d.AddImageFromData(jpegBytes(4, 2, 77), "agree.jpg", document.ImageFormatJPEG, 4, 2, nil)
+	}},
+	{"AddHeader(default)", func(d *document.Document) { d.AddHeader(document.HeaderFooterTypeDefault, "agree head") }},
+	{"AddFooterWithPageNumber(first)", func(d *document.Document) {
+		d.AddFooterWithPageNumber(document.HeaderFooterTypeFirst, "agree foot", true)
+	}},
+	{"AddListItem", func(d *document.Document) {
+		d.AddListItem("agree item", &document.ListConfig{Type: document.ListTypeNumber})
+	}},
+	{"AddFootnote", func(d *document.Document) { d.AddFootnote("agree ref", "agree note") }},
+	{"AddEndnote", func(d *document.Document) { d.AddEndnote("agree eref", "agree endnote") }},
+	{"AddTable", func(d *document.Document) { d.AddTable(&document.TableConfig{Rows: 2, Cols: 2, Width: 4000}) }},
+	{"SetPageMargins", func(d *document.Document) { d.SetPageMargins(11, 12, 13, 14) }},
+	{"SetPageOrientation(landscape)", func(d *document.Document) { d.SetPageOrientation(document.OrientationLandscape) }},
+	{"SetTitle", func(d *document.Document) { d.SetTitle("agree title") }},
+	{"SetFootnoteConfig", func(d *document.Document) { d.SetFootnoteConfig(nil) }},
+	{"RemoveParagraphAt(0)", func(d *document.Document) { d.RemoveParagraphAt(0) }},
+}
+
+var c05AgreeBases = []c05Doc{
+	{"new", func() *document.Document {
+		d := document.New()
+		d.AddParagraph("base")
+		return d
+	}},
+	{"new+section-first", func() *document.Document {
+		d := document.New()
+		d.SetPageMargins(30, 30, 30, 30)
+		d.AddParagraph("base after section settings")
+		return d
+	}},
+	{"opened", func() *document.Document {
+		d := document.New()
+		d.AddParagraph("base")
+		d.AddHeader(document.HeaderFooterTypeDefault, "h")
+		b, err := d.ToBytes()
+		if err != nil {
+			panic(err)
+		}
+		o, errS := reopen(b)
+		if errS != "" {
+			panic("c05: own output does not open: " + errS)
+		}
+		return o
+	}},
+}
+
+func c05Agreement(each func(desc map[string]interface{}, run func(idx int64)), c *shard.Ctx, dir string, depth int) {
+	firsts := []string{"none", "ToBytes", "Save"}
+	orders := []string{"ToBytes-then-Save", "Save-then-ToBytes"}
+	var seqs [][]int
+	var gen func(pre []int)
+	gen = func(pre []int) {
+		if len(pre) > 0 {
+			seqs = append(seqs, append([]int{}, pre...))
+		}
+		if len(pre) == depth {
+			return
+		}
+		for m := range c05Muts {
+			gen(append(pre, m))
+		}
+	}
+	gen(nil)
+	for _, base := range c05AgreeBases {
+		for _, first := range firsts {
+			for _, seq := range seqs {
+				for _, order := range orders {
+					base, first, seq, order := base, first, seq, order
+					names := make([]string, len(seq))
+					for k, m := range seq {
+						names[k] = c05Muts[m].name
+					}
+					desc := map[string]interface{}{"agreement": true, "base": base.name, "first": first, "mutations": names, "order": order}
+					each(desc, func(idx int64) { c05AgreeCase(c, idx, desc, base, first, seq, order, dir) })
+				}
+			}
+		}
+	}
+}
+
+func c05AgreeCase(c *shard.Ctx, idx int64, desc map[string]interface{}, base c05Doc, first string, seq []int, order, dir string) {
+	P := c.P
+	document.VerifResetGlobals()
+	sub := filepath.Join(dir, fmt.Sprintf("g%d", idx))
+	os.MkdirAll(sub, 0o755)
+	defer os.RemoveAll(sub)
+	path := filepath.Join(sub, "a.docx")
+	var ref, file []byte
+	var terr, serr error
+	last := c05Muts[seq[len(seq)-1]].name
+	pan := guard(func() {
+		d := base.build()
+		ser := func(how string) {
+			switch how {
+			case "ToBytes":
+				d.ToBytes()
+			case "Save":
+				d.Save(filepath.Join(sub, "earlier.docx"))
+			}
+		}
+		ser(first)
+		for k, m := range seq {
+			c05Muts[m].apply(d)
+			if k < len(seq)-1 {
+				ser(map[string]string{"none": "ToBytes", "ToBytes": "ToBytes", "Save": "Save"}[first])
+			}
+		}
+		if order == "ToBytes-then-Save" {
+			ref, terr = d.ToBytes()
+			serr = d.Save(path)
+		} else {
+			serr = d.Save(path)
+			ref, terr = d.ToBytes()
+		}
+	})
+	P.Evals++
+	P.Transitions += int64(len(seq) + 2)
+	P.Traces++
+	cs := shardCase(c, "C05", idx, desc)
+	key := fmt.Sprintf("agree|%s|%s|%v|%s", base.name, first, seq, order)
+	P.Keys = append(P.Keys, key)
+	if first != "none" {
+		P.Nontrivial = append(P.Nontrivial, key)
+	}
+	if pan != "" {
+		P.Violate(rep.Violation{Sig: "panic|agreement|" + panicClass(pan), Clause: "panic", What: fmt.Sprintf("history %v panics: %s", desc, pan), Case: cs})
+		return
+	}
+	if terr != nil {
+		P.Outcome("agreement=>ToBytes-error")
+		return
+	}
+	if serr != nil {
+		P.Violate(rep.Violation{Sig: "error-on-writable-target|agreement|after=" + last, Clause: "save-works", What: fmt.Sprintf("Save failed without any fault although ToBytes works (%v): %v", desc, serr), Case: cs})
+		return
+	}
+	file, _ = os.ReadFile(path)
+	clause, detail := c05Compare(file, ref)
+	P.Outcome("agreement=>" + map[bool]string{true: "agree", false: clause}[clause == ""])
+	if clause != "" && clause != "harness" {
+		P.Violate(rep.Violation{Sig: "save-and-tobytes-disagree|" + clause + "|" + partClassOf(detail), Clause: "save-equals-tobytes", What: fmt.Sprintf("after %v: Save returned nil but %s", desc, detail), Case: cs})
+	}
 }
 
 var c05PathKinds = []string{"plain", "save-before-any-tobytes", "nested-new-dirs", "existing-longer-file", "existing-shorter-file", "relative-bare-name", "dev-full", "is-a-directory", "below-a-regular-file", "missing-dir-under-file", "empty-name"}
@@ -473,7 +651,7 @@ func runC05(r *rep.Run) {
 		sizeInfo[c05Docs[dn].name] = max
 		total += max + 257
 	}
-	r.Rule = "for every document of the set and EVERY k in [0, size+256]: fresh document, ToBytes (reference), RLIMIT_FSIZE=k with SIGXFSZ ignored, real Document.Save to a real file, limit restored, file read back with the independent reader; verdict: err==nil => file is a readable ZIP whose part set equals ToBytes' and every part is byte-equal (XML parts: equal up to the order of id-keyed children and time stamps); plus target paths (plain, nested new directories, existing longer/shorter file, bare relative name: must succeed faithfully with no trailing bytes; /dev/full, a directory, below a regular file, empty name: must return an error); non-trivial = the fault actually struck (Save returned an error or the file is incomplete) or a path case; state = (document, k, outcome)"
+	r.Rule = "for every document of the set and EVERY k in [0, size+256]: fresh document, ToBytes (reference), RLIMIT_FSIZE=k with SIGXFSZ ignored, real Document.Save to a real file, limit restored, file read back with the independent reader; verdict: err==nil => file is a readable ZIP whose part set equals ToBytes' and every part is byte-equal (XML parts: equal up to the order of id-keyed children and time stamps); plus target paths (plain, nested new directories, existing longer/shorter file, bare relative name: must succeed faithfully with no trailing bytes; /dev/full, a directory, below a regular file, empty name: must return an error); plus agreement histories without faults: 3 base documents (new; section settings first; opened) x first serialisation (none/ToBytes/Save) x every sequence of <= d mutations (styles added/removed, images, headers, footers, lists, notes, tables, page settings, properties, settings, removal) with a serialisation between mutations x both orders of the final ToBytes and Save: Save must return nil and the file must equal ToBytes; non-trivial = the fault actually struck (Save returned an error or the file is incomplete), a path case, or an agreement history whose document was serialised before it was changed; state = (document, k, outcome) / (history)"
 	r.Bounds["documents"] = sizeInfo
 	r.Bounds["fault_offsets"] = total
 	r.Bounds["path_kinds"] = c05PathKinds
@@ -482,6 +660,11 @@ func runC05(r *rep.Run) {
 		"close-time errors of network file systems and durability after power loss are outside this fault model",
 	}
 	t0 := time.Now()
-	runShards(r, "C05", c05Args{Docs: docs, Sizes: sizes, Root: root}, 120*time.Second, nil)
+	agreeDepth := 2
+	if r.Tier == "thorough" {
+		agreeDepth = 3
+	}
+	r.Bounds["agreement_histories"] = map[string]interface{}{"bases": len(c05AgreeBases), "first_serialisation": []string{"none", "ToBytes", "Save"}, "mutations": len(c05Muts), "max_mutations": agreeDepth, "final_order": 2}
+	runShards(r, "C05", c05Args{Docs: docs, Sizes: sizes, Root: root, AgreeDepth: agreeDepth}, 120*time.Second, nil)
 	r.P.Add("fault_run_ms", time.Since(t0).Milliseconds())
 }
